@@ -114,7 +114,9 @@ func streamWatchFS(seed uint64, n int, tmp string, cf *CoqFile) *Stats {
 	var items []string
 	count := 40 + n/4
 	old := time.Now().Add(-72 * time.Hour).Truncate(time.Second)
-	for c := 0; c < count; c++ {
+	ran := 0
+	for c := 0; c < count && !budgetSpent(0.30); c++ {
+		ran++
 		root := filepath.Join(tmp, fmt.Sprintf("w%d", c))
 		must(os.MkdirAll(filepath.Join(root, "d0"), 0o755))
 		if rp, err := filepath.EvalSymlinks(root); err == nil {
@@ -204,10 +206,17 @@ func streamWatchFS(seed uint64, n int, tmp string, cf *CoqFile) *Stats {
 					doReadDir(id)
 				}
 				nm := names[r.Intn(len(names))]
-				dirEntries[id].Get(nm)
+				entry, _ := dirEntries[id].Get(nm)
 				logItems = append(logItems, fmt.Sprintf("(1, %d, %s)", id, cName(nm)))
 				logDesc = append(logDesc, "Get "+rel[id]+" "+nm)
 				obsLog = append(obsLog, obsRec{1, id, nm})
+				if entry != nil && r.Chance(50) {
+					// Entry.Kind / Entry.Symlink (realFS.kind: lstat): must leave no watch record
+					entry.Kind(rfs)
+					entry.Symlink(rfs)
+					logItems = append(logItems, fmt.Sprintf("(5, %d, %s)", id, cName(nm)))
+					logDesc = append(logDesc, "Kind "+rel[id]+" "+nm)
+				}
 			case 5:
 				id := dirIDs[r.Intn(2)]
 				if _, ok := dirEntries[id]; !ok {
@@ -330,6 +339,7 @@ func streamWatchFS(seed uint64, n int, tmp string, cf *CoqFile) *Stats {
 		}
 		os.RemoveAll(root)
 	}
+	st.Extra["cases_planned"], st.Extra["cases_run"] = count, ran
 	cf.AddCases("watch", "watch_case", "check_watch", items)
 	st.Finish("one case = a random log of ReadDirectory/Get/SortedKeys/ReadFile/ModKey calls on a real directory through fs.RealFS with watch data, then 0-2 edits; non-trivial = at least one edit; distinct by case number")
 	return st
